@@ -17,6 +17,7 @@ Events (JSON-able):
   ['closex', {'c0': [...], 'c1': [...], 'd': [...]}]   close_link() with another thread acting inside link.close() (before /
                            after the driver closed) and from a disconnected callback
   ['open', nr]             cf.open_link(...) with a link whose needs_resending is nr (ignored when a link is open)
+  ['openfail', nr]         cf.open_link(...) fails: the driver connects, its first set-up send_packet raises
   ['close']                cf.close_link()
   ['linkerr']              the driver reports an error (cf._link_error_cb)
   ['setnr', b]             the driver changes link.needs_resending
@@ -71,6 +72,7 @@ def _the_cf():
 
 class Run:
     def __init__(self, cf=None):
+        self.fail_setup_sends = 0   # >0: the next packets the library itself sends (connection set-up) raise in the driver
         self.close_hook = None  # set while a 'closex' event runs: called inside link.close()
         self.gate = None        # optional hook called inside link.send_packet before the packet counts as transmitted
         import cflib.crazyflie as cfmod
@@ -104,6 +106,9 @@ class Run:
 
             def send_packet(self, pk):
                 rid = run.pk_rid.get(id(pk))
+                if rid is None and run.fail_setup_sends > 0:
+                    run.fail_setup_sends -= 1
+                    raise OSError('scripted: the driver fails while the connection is set up')
                 # what counts is the moment the packet is handed to the driver (the call may block)
                 rec = {'sess': self.session, 'rid': rid, 't': run.now, 'closed': self.closed, 'current': run.cf.link is self,
                        'ev': run.ev_index,
@@ -261,9 +266,21 @@ class Run:
                 self.close_hook = None
                 cf.disconnected.remove_callback(on_disconnected)
         elif k == 'open':
-            if cf.link is None:
+            if cf.link is None or getattr(cf.link, 'closed', False):    # (a closed driver object is not an open link)
                 self.next_nr = bool(ev[1])
                 cf.open_link('fake://%d' % self.sessions)
+        elif k == 'openfail':
+            # open_link whose driver connects but whose first set-up packet raises in the driver: the attempt fails
+            # (connection_failed), the driver is closed.  For the model: a session that is opened and lost at once.
+            self.expanded.pop()
+            if cf.link is None or getattr(cf.link, 'closed', False):
+                self.next_nr = bool(ev[1])
+                self.fail_setup_sends = 1
+                try:
+                    cf.open_link('fake://%d' % self.sessions)
+                finally:
+                    self.fail_setup_sends = 0
+                self.expanded += [['open', bool(ev[1])], ['linkerr']]
         elif k == 'close':
             cf.close_link()
         elif k == 'linkerr':
